@@ -8,6 +8,29 @@ TB = ("Lean 4.33 kernel; axioms propext, Classical.choice, Quot.sound only (audi
       "Lean runtime executing nvdriver for the correspondence only.")
 
 CHECKS = {
+    "C01": dict(
+        text=("Lean 4 models of the whole NanoVM back end - lexer, parser, bytecode generator (module assembly included) and VM - and an independent reference "
+              "semantics `Sem` in a VM and a native configuration. Proved: the two configurations coincide on every operator application except division/modulo "
+              "by zero, the one documented point where the engines may differ, and that fault arises only there (cfg_agree_arith, divZero_only_from_zero_divisor, "
+              "vm_never_divZero). The compiler theorem (VM model running the generated code = reference) is being extended fragment by fragment in Props/Compile*.lean; "
+              "what is not yet proved is covered by correspondence only. The native back end is not modelled as code: it is represented by Sem's native configuration "
+              "(tied in C02) and compared directly with the VM: every program is compiled by nanoc and run and run by nano_virt --run, stdout and exit status must be "
+              "equal unless the reference says the run performs a partial operation. VM side tied by byte-identical .nvm files from the front-end models."),
+        note=TB + " Partial: no theorem covers the C transpiler or the C runtime; the proved statement about the two back ends is at the level of the reference configurations. F-C02-2 (native argument order) is a known finding reported on every run.",
+        technique="Lean 4 proof over an executable reference semantics and compiler model + byte-for-byte front-end correspondence + direct two-engine differential oracle",
+        category="proof",
+        design="6/C01"),
+    "C02": dict(
+        text=("Lean 4 theorems: the reference semantics `Sem` (an executable transcription of SPECIFICATION.md sections 4-8, independent of every engine) provably "
+              "skips the right operand of and/or when the left decides, evaluates operands and call arguments strictly left to right with the state threaded, stops at the "
+              "first fault, and keeps integers in the 64-bit range (and_short, or_short, and_right, operands_left_to_right, args_left_to_right, first_*_fault_stops, "
+              "wrap64_range); and for ALL pairs of 64-bit operands the NanoVM handlers of ADD SUB MUL DIV MOD NEG and the comparisons - the binArith/execData' that the "
+              "lock-step runs tie to vm.c - compute exactly the reference's result: wrapping, truncating division, INT64_MIN/-1, x/0 = x%0 = 0 (vm_arith_handler, "
+              "arith_agree, cmp_agree, via BitVec.toInt lemmas). Each engine is compared with the reference on whole programs: 11 operators x ordered pairs of 26 "
+              "boundary values (literal and through a call), unary/abs/min/max, and/or shapes, scoping/loops/globals/recursion, int->string extremes, random typed programs."),
+        note=TB + " Partial: the Coq NanoCore relation (formal/Semantics.v) is not re-checked here - its floor division / unbounded integers differ from every engine (F-C02-3, documentation-level finding recorded in DESIGN.md); floats are outside the reference.",
+        technique="Lean 4 proof (BitVec/Int arithmetic lemmas for all operands, evaluator laws by unfolding) + differential correspondence of both engines against the executable reference",
+        design="6/C02"),
     "C06": dict(
         text=("Lean 4 theorems over the gate logic of run_shadow_tests and phase 5 of compile_file (per shadow block: skipped or not, number of "
               "false assertions counted while its body and callees ran): the run fails iff some executed block saw a false assertion, for "
